@@ -17,7 +17,8 @@ RULE = ("parents: random lint-clean circuits (with/without own blackbox) having 
         "blackboxes; connection maps: every child input attached to a random parent net or left open, outputs "
         "attached to fresh parent buffers or left open; repeated instantiation under two names; fill_blackbox after "
         "add_blackbox; strip_blackboxes with ignore_pins in {none, one pin name, suffix-sharing pin names}; "
-        "non-trivial = child has a gate and at least one connection")
+        "non-trivial = child has a gate and at least one connection"
+        "; plus: instance names containing dots; node types of the spliced copy are compared")
 BOUND = "parent <= 8 nodes, child <= 7 nodes, composite free signals <= 12; 4/16 hash seeds"
 
 
